@@ -222,7 +222,19 @@ func scanRoot(root string, n int) diskState {
 
 // ---- the scenario -------------------------------------------------------------------------------------------------
 
-func newArgs(schema base.LogSchema, alloc *base.LogAllocator, root string, override base.ChunkConsumerOverrideCreator, sendAll bool) bconfig.PipelineArgs {
+// newArgs: frontRoot != "" puts a second output, with its own (empty) queue root, IN FRONT of the output whose root holds
+// the queued chunks - the queue directories found at startup are those of every output, not of the first one (seeded c17-s6).
+func newArgs(schema base.LogSchema, alloc *base.LogAllocator, root string, override base.ChunkConsumerOverrideCreator, sendAll bool, frontRoot ...string) bconfig.PipelineArgs {
+	args := newArgs1(schema, alloc, root, override, sendAll)
+	if len(frontRoot) == 1 && frontRoot[0] != "" {
+		front := newArgs1(schema, alloc, frontRoot[0], override, sendAll).OutputBufferPairs[0]
+		front.Name = "front"
+		args.OutputBufferPairs = append([]bconfig.OutputBufferConfig{front}, args.OutputBufferPairs...)
+	}
+	return args
+}
+
+func newArgs1(schema base.LogSchema, alloc *base.LogAllocator, root string, override base.ChunkConsumerOverrideCreator, sendAll bool) bconfig.PipelineArgs {
 	bufCfg := &hybridbuffer.Config{RootPath: root, MaxBufSize: 1 * datasize.GB}
 	bufCfg.Type = "hybridBuffer"
 	outCfg := &fluentdforward.Config{MessageMode: forwardprotocol.ModeForward,
@@ -435,7 +447,12 @@ func runS2(c *vkit.Ctx, sc s2Case) {
 		return &confirmingConsumer{num: k, args: args, stopped: channels.NewSignalAwaitable(), mu: &cmu, out: &consumed, n: sc.n}
 	}
 	mf2 := promreg.NewMetricFactory("c06_", nil, nil)
-	orch2 := cfg.StartOrchestrator(logger.Root(), newArgs(schema, alloc, root, confirming, true), mf2)
+	frontRoot := ""
+	if sc.idx%2 == 1 && !sc.umaskProbe && sc.note == "" {
+		frontRoot = root + "-front" // every second case restarts with a second, empty output in front
+		c.Event("s2_restarts_with_an_empty_output_in_front", 1)
+	}
+	orch2 := cfg.StartOrchestrator(logger.Root(), newArgs(schema, alloc, root, confirming, true, frontRoot), mf2)
 	cmu.Lock()
 	startedAtInit := nConsumers
 	cmu.Unlock()
